@@ -59,6 +59,8 @@ fn op_kind(op: &Op) -> &'static str {
         Op::Holding { .. } => "holding",
         Op::Require(..) => "require",
         Op::SetBest(..) => "set_best",
+        Op::SetWhileBorrowed(..) => "set_value-while-borrowed",
+        Op::GetWhileBorrowedMut(..) => "try_get_value-while-borrowed-mut",
     }
 }
 
